@@ -72,7 +72,10 @@ def gen_case(rng, params, idx):
         target = {"list": ["Ls", a], "dict": ["Dc", "str", a], "tuple": ["T", a, "str"], "Sequence": ["Sq", a],
                   "Mapping": ["Mp", "str", a]}[o]
     else:
-        target = ["L", *rng.sample([0, 1, 2, 3, "a", "b", True, 1000], rng.choice([2, 2, 3]))]
+        # (-1 and -2 are distinct values with the same hash)
+        target = ["L", *rng.sample([0, 1, 2, 3, "a", "b", True, 1000, -1, -2], rng.choice([2, 2, 3]))]
+        if rng.random() < 0.15:
+            target = ["L", -1, -2] + ([rng.choice([0, "a", 3])] if rng.random() < 0.4 else [])
     methods = []
 
     def meth(t, prio=0):
@@ -185,7 +188,7 @@ def check_case(spec, res):
     res.sample(spec, fam)
     names = [s["name"] for s in spec["hier"]]
     vals = [["i", n] for n in names] + [["i", "object"], ["v", None], ["v", 0], ["v", 1], ["v", 2], ["v", 3], ["v", 4],
-                                        ["v", 1000], ["v", True], ["v", "a"], ["v", "b"], ["v", "c"], ["mi", 1], ["v", 2.5],
+                                        ["v", 1000], ["v", -1], ["v", -2], ["v", True], ["v", "a"], ["v", "b"], ["v", "c"], ["mi", 1], ["v", 2.5],
                                         ["l"], ["l", ["v", 1]], ["l", ["v", "a"]], ["l", ["i", names[0]]],
                                         ["t", ["v", 1], ["v", "a"]], ["t", ["v", "a"], ["v", "a"]], ["t", ["i", names[0]], ["v", "s"]],
                                         ["d"], ["d", [["v", "k"], ["v", 1]]], ["d", [["v", "k"], ["v", "a"]]],
